@@ -349,10 +349,11 @@ func Run(prog []func(), prefix []int, mode Mode, rng *rand.Rand, maxPreempt int,
 				// parked threads wait for locks held by blocked threads and the blocked ones for locks held by parked
 				// ones (or by each other): a deadlock of the program
 				before := progress
-				drain(100 * time.Millisecond)
+				drain(deadlockPatience())
 				if progress != before {
 					continue
 				}
+				deadlocksSeen.Add(1)
 			}
 			e.Deadlock = true
 			break
@@ -460,6 +461,18 @@ func Run(prog []func(), prefix []int, mode Mode, rng *rand.Rand, maxPreempt int,
 	e.active = false
 	current = nil
 	return e
+}
+
+// deadlockPatience: a thread that was marked blocked may merely be waiting for the CPU (a loaded machine): a deadlock is
+// declared only when nothing has moved for two seconds; once deadlocks have been established in this process the wait
+// is shortened (a tree that deadlocks on many schedules must not cost hours).
+var deadlocksSeen atomic.Int64
+
+func deadlockPatience() time.Duration {
+	if deadlocksSeen.Load() > 3 {
+		return 250 * time.Millisecond
+	}
+	return 2 * time.Second
 }
 
 // Next returns the next DFS prefix after an execution, or nil when the search is complete.
